@@ -972,7 +972,7 @@ func writeRun(w *os.File, meta progMeta, a, r runOut) int {
 }
 
 // sweepLimits derives gas limits around every intermediate gas value of the top-level frame.
-func sweepLimits(evs []SEv, g0 uint64, max int, seed int64) []uint64 {
+func sweepLimits(evs []SEv, g0 uint64, max int, seed int64, left int64) []uint64 {
 	set := map[uint64]bool{}
 	for _, e := range evs {
 		if e.K != "step" || e.D != 1 || e.Gas < 0 || e.Cost < 0 {
@@ -1000,7 +1000,47 @@ func sweepLimits(evs []SEv, g0 uint64, max int, seed int64) []uint64 {
 		}
 		ls = out
 	}
-	return ls
+	// always: exactly the gas the whole run needs (what is charged after the last instruction - the code deposit of a creation -
+	// has no step of its own), and the limits at which one of the first nested frames is given exactly what it uses
+	// (gas forwarded under the 63/64 rule moves by 63/64 of the change of the limit)
+	extra := map[uint64]bool{}
+	add := func(v int64) {
+		if v > 0 && uint64(v) < g0 {
+			extra[uint64(v)] = true
+		}
+	}
+	if left >= 0 && uint64(left) <= g0 {
+		for _, d := range []int64{-1, 0, 1} {
+			add(int64(g0) - left + d)
+		}
+	}
+	var given []int64
+	nested := 0
+	for _, e := range evs {
+		switch {
+		case e.K == "enter" && e.Top == 0:
+			given = append(given, e.Gas)
+		case e.K == "exit" && e.Top == 0 && len(given) > 0:
+			g := given[len(given)-1]
+			given = given[:len(given)-1]
+			if len(given) == 0 && e.Err == "" && g >= 0 && e.Used >= 0 && g > e.Used && nested < 3 {
+				nested++
+				delta := (g - e.Used) * 64 / 63
+				for d := int64(-2); d <= 2; d++ {
+					add(int64(g0) - delta + d)
+				}
+			}
+		}
+	}
+	for _, v := range ls {
+		delete(extra, v)
+	}
+	ex := make([]uint64, 0, len(extra))
+	for v := range extra {
+		ex = append(ex, v)
+	}
+	sort.Slice(ex, func(i, j int) bool { return ex[i] < ex[j] })
+	return append(ls, ex...)
 }
 
 type traceReport struct {
@@ -1151,8 +1191,8 @@ func traceCmd(args []string) int {
 					}
 					mu.Unlock()
 				}
-				if *sweep > 0 && p.Gas <= 2_000_000 {
-					for _, lim := range sweepLimits(first.evs, p.Gas, *sweep, *seed) {
+				if *sweep > 0 && p.Gas <= 2_000_000 && !p.ResultOnly {
+					for _, lim := range sweepLimits(first.evs, p.Gas, *sweep, *seed, first.result.Gas) {
 						o := runOpts{fork: j.fork, gas: lim, tracer: true, limit: *limit}
 						a := runArtela(p, o)
 						r := runRef(p, o)
